@@ -226,6 +226,10 @@ def rule_conc(filter_names=None):
                                 ok = idx is not None and _is_partition_var(wan, wfx, idx)
                                 o.check(ok, prog.pretty[wp], "worker-ptr-write",
                                         "a worker writes through a shared raw pointer at an index that is not its loop variable over its own range", ev["span"])
+            # --- ROWS-COMPLETE: a worker may skip a row of an operand only when the row is outside it
+            for (sp, sb, skey, wc) in ws:
+                for (ok_, sp_, msg_) in rows_complete(crate, wc):
+                    o.check(ok_, prog.pretty[wc], "rows-complete", msg_, sp_)
             # --- TILE
             tiles = tile_templates(crate, root)
             tt = trusted_tiles().get(who)
@@ -364,3 +368,52 @@ def trusted_tiles():
         return {e["fn"]: e for e in json.load(open("/verif/tables/trusted_tiles.json"))}
     except FileNotFoundError:
         return {}
+
+
+def rows_complete(crate, wc):
+    """[(ok, span, message)]: for every conditional read of row u of an operand through a raw pointer
+    (u the worker's partition variable), the branch that does not read must know u >= len(operand)"""
+    from .mem import root_bounds
+    out = []
+    an = crate.an(wc)
+    fx = crate.fx(wc)
+    for ev in an.events:
+        if ev["k"] != "call" or ev["key"] != "rawptr::add":
+            continue
+        P, u = ev["args"]
+        if not _is_partition_var(an, fx, u):
+            continue
+        Bs = [B for B in root_bounds(crate, an, P) if B[0] == "len"]
+        if not Bs:
+            continue
+        b = ev["b"]
+        # nearest dominating switch that decides whether b executes
+        x = an.cfg.idom.get(b)
+        seen = set()
+        ctl = None
+        while x is not None and x not in seen:
+            seen.add(x)
+            e2 = fx.ev_term.get(x)
+            if e2 is not None and e2["k"] == "switch" and len(an.cfg.succ[x]) >= 2:
+                reach = [tg for tg, _ in an.cfg.succ[x] if b in an.cfg.reachable_from(tg, avoid={x})]
+                other = [tg for tg, _ in an.cfg.succ[x] if b not in an.cfg.reachable_from(tg, avoid={x})]
+                if reach and other:
+                    # only switches inside the partition loop count
+                    lp = an.cfg.loop_of(b)
+                    if lp is not None and x in an.cfg.loops[lp] and _mentions(e2["discr"], u) or \
+                            (lp is not None and x in an.cfg.loops[lp] and e2["discr"][0] == "bin"):
+                        ctl = (x, other)
+                        break
+            if x == 0:
+                break
+            x = an.cfg.idom.get(x)
+        if ctl is None:
+            continue
+        x, other = ctl
+        for tg in other:
+            if tg not in an.cfg.can_return:
+                continue
+            ok = any(fx.holds(tg, lambda rel, B=B: rel.le(B, u)) for B in Bs)
+            out.append((ok, ev["span"], "a row of an operand can be skipped although it exists: the branch that does not read row u "
+                        "does not establish u >= len(operand rows)"))
+    return out
